@@ -155,9 +155,10 @@ def mps2latValues {α : Type} (l : Lat) (A : List α) (u : Option Nat) : List (O
   idx.map (fun o => o.bind (fun i => A[i.toNat]?))
 
 /-- `Lattice.mps2lat_values_masked(A, axes=0, mps_inds, include_u)` for a 1D array `A`; the result
-(shape, flattened C-order data with `none` = masked). Negative `x_0` wrap around numpy-style. -/
-def mps2latValuesMasked {α : Type} (l : Lat) (A : List α) (mpsInds : List Int) (includeU : Bool) :
-    List Nat × List (Option α) :=
+(shape, flattened C-order data with `none` = masked). Negative `x_0` wrap around numpy-style;
+`none` = numpy raises `IndexError` (an `x_0` outside the enlarged shape, known finding). -/
+def mps2latValuesMasked {α : Type} (l : Lat) (A : List α) (mpsInds : List Int) (includeU : Bool)
+    (repaired : Bool := false) : Option (List Nat × List (Option α)) :=
   let latInds := mpsInds.map (mps2latIdx l)
   let maxI := mpsInds.foldl max (mpsInds.headD 0)
   let minI := mpsInds.foldl min (mpsInds.headD 0)
@@ -166,13 +167,23 @@ def mps2latValuesMasked {α : Type} (l : Lat) (A : List α) (mpsInds : List Int)
   let s0 : Int := (l.Ls.headD 0 : Int)
     + (if maxI ≥ N then (maxI - N) * R / N + 1 else 0)
     + (if minI < 0 then ((-minI) - 1) * R / N + 1 else 0)
+  -- `repaired = true`: the shape proposed in pending_fixes/C19-masked-shape.diff (from the lattice
+  -- indices themselves instead of from MPS-index arithmetic)
+  let xs := latInds.map (·.headD 0)
+  let maxX := xs.foldl max (xs.headD 0)
+  let minX := xs.foldl min (xs.headD 0)
+  let s0 : Int := if repaired then
+      max (l.Ls.headD 0 : Int) (maxX + 1) + (if minX < 0 then -minX else 0)
+    else s0
   let shape := (s0.toNat :: l.Ls.tail) ++ (if includeU then [l.Lu] else [])
   let latInds := if includeU then latInds else latInds.map (·.dropLast)
-  let pos := latInds.map (fun r =>
-    let r' := match r with
-      | [] => []
-      | x :: xs => (if x < 0 then x + s0 else x) :: xs
-    (flatC shape r').toNat)
-  (shape, scatter (List.replicate (prodNat shape) none) pos (A.map some))
+  if latInds.any (fun r => decide (r.headD 0 ≥ s0) || decide (r.headD 0 < -s0)) then none
+  else
+    let pos := latInds.map (fun r =>
+      let r' := match r with
+        | [] => []
+        | x :: xs => (if x < 0 then x + s0 else x) :: xs
+      (flatC shape r').toNat)
+    some (shape, scatter (List.replicate (prodNat shape) none) pos (A.map some))
 
 end TenpyModel.C19
